@@ -12,8 +12,8 @@ FileCases == LET s == ndJsonDeserialize("cases.ndjson") IN {s[i] : i \in 1..Len(
 GQuick    == GQuickE \cup FileCases
 GThorough == GThoroughE \cup FileCases
 \* second pass (Devs = {DF}, ab forced): the as-built alternative of the configurations with a memoising fetcher
-GAltQ == {c \in GQuick : c.cached}
-GAltT == {c \in GThorough : c.cached}
+GAltQ == CachedCases \cup {c \in FileCases : c.cached}
+GAltT == GAltQ
 
 Log(e) == hist' = Append(hist, e)
 GNext ==
@@ -27,7 +27,8 @@ GNext ==
   \/ EndWalk /\ Log([ev |-> "End", c |-> wi, want |-> exp.out]) /\ want' = Append(want, exp.out)
 GInit == Init /\ hist = <<>> /\ want = <<>>
 GSpec == GInit /\ [][GNext]_gvars
-GSpecAlt == (GInit /\ ab) /\ [][GNext]_gvars
+GInitAlt == GInit /\ ab = TRUE
+GSpecAlt == GInitAlt /\ [][GNext]_gvars
 
 Emit1 == ~done \/ PrintT(<<"BEHAVIOUR", ToJson([cfg |-> cfg, events |-> hist, want |-> want,
                                                  seen |-> Seen(chain), total |-> total, dedup |-> dedup, dev |-> dev])>>)
